@@ -219,6 +219,15 @@ def run_case(case, tmp):
     res2 = outer.simulate(np.array(theta), times)
     obs['calls_again'] = [c for c in sim2.calls[k0:]]
     obs['y_again'] = np.asarray(res2 if sens == 'off' else res2[0])
+    # sensitivities on, then a parameter renamed, then the outputs set again: whatever set_outputs does to the
+    # sensitivity switch, an enabled model must differentiate by exactly the free parameters under their current names
+    if sens != 'off' and mode != 'plain' and free:
+        cur = list(outer.parameters())
+        outer.set_parameter_names({cur[0]: 'renamed again'})
+        outer.set_outputs(list(outer.outputs()))
+        if outer.has_sensitivities():
+            r3 = outer.simulate(np.array(theta), times)
+            obs['after_rename'] = (np.asarray(r3[1]).shape, (len(times), len(outer.outputs()), len(free)))
     return obs
 
 
@@ -260,6 +269,9 @@ def direct(obs):
     if not err < 1e-9:
         return ('simulate(%s, %s) differs from the solution with each published name bound to its entry '
                 '(max rel. diff %.3g)' % (obs['theta'], obs['times'], err))
+    if 'after_rename' in obs and tuple(obs['after_rename'][0]) != tuple(obs['after_rename'][1]):
+        return ('sensitivities enabled, a free parameter renamed, outputs set again: the sensitivities have shape %s, '
+                '(times, outputs, free parameters) is %s' % obs['after_rename'])
     if obs['y_again'].shape != y.shape or not np.allclose(obs['y_again'], y, rtol=1e-9, atol=1e-12):
         return ('simulate(%s, %s) repeated after the solver object was replaced (sensitivities switched) no longer '
                 'returns the solution for that vector' % (obs['theta'], obs['times']))
